@@ -189,12 +189,14 @@ def _same_tokens_same_object(ops, go, gkv, res):
         obs = (g.get("vl"), g.get("f"), g.get("fc"), g.get("s"), g.get("sv"))
         first = groups.setdefault(key, (i, obs))
         if first[1] != obs:
-            res.violations.append((op, "same tokens as %s (other order / X written or omitted) but a different object or score"
-                                   % _readable(ops[first[0]]), go[i], go[first[0]]))
+            res.violations.append((ops[first[0]] + "\n" + op, "same tokens as %s (other order / X written or omitted) but a different "
+                                   "object or score" % _readable(ops[first[0]]), go[i], go[first[0]]))
     res.hist["token-set classes with >= 2 spellings"] = sum(1 for _ in groups)
 
 
 def _readable(op):
+    if "\n" in op:
+        return " || ".join(_readable(o) for o in op.split("\n"))
     f = op.split(" ")
     if len(f) >= 3:
         try:
